@@ -563,7 +563,11 @@ FORMS = [dict(dumps=slice(0, 2)), dict(channels=slice(1, 3)), dict(dumps=slice(0
          dict(dumps=slice(0, 2), channels=slice(0, 2), flags='cam'), dict(channels=np.arange(2)), {},
          # reversed ranges (a negative step that would actually select something)
          dict(dumps=slice(None, None, -1)), dict(dumps=slice(3, 0, -1)), dict(channels=slice(3, 1, -1)),
-         dict(dumps=slice(3, None, -1), channels=slice(0, 2)), dict(dumps=slice(0, 4, 3)), dict(channels=slice(0, 4, 3))]
+         dict(dumps=slice(3, None, -1), channels=slice(0, 2)), dict(dumps=slice(0, 4, 3)), dict(channels=slice(0, 4, 3)),
+         # a valid first item followed by an invalid one that would still select something
+         dict(channels=slice(0, 3), dumps=slice(0, 4, 2)), dict(channels=slice(1, 3), dumps=slice(None, None, -1)),
+         dict(dumps=slice(0, 4), channels=slice(0, 4, 2)), dict(dumps=slice(1, None), channels=slice(None, None, -1)),
+         dict(dumps=slice(0, 3), channels=2), dict(channels=slice(0, 3), dumps=[0, 1])]
 # every keyword DataSet.select understands, plus near misses: alone and next to a valid key, with a VALID slice value
 KEY_POOL = ['dumps', 'channels', 'ants', 'corrprods', 'timerange', 'targets', 'target_tags', 'channel', 'scans',
             'compscans', 'inputs', 'pol', 'freqrange', 'weights', 'flags', 'reset', 'strict', 'subarray', 'spw',
@@ -582,7 +586,7 @@ def check_preselect_form(ctx, x, pre):
         try:
             open_pre(x, dict(off=0.0), pre, via)
             ok = 1
-        except (IndexError, TypeError, ValueError, AssertionError):
+        except Exception:       # any refusal will do for an invalid dictionary (the statement: not answered wrongly)
             pass
     want = int(set(pre) <= {'dumps', 'channels'} and
                all(isinstance(v, slice) and (v.step is None or (type(v.step) is int and v.step == 1)) for v in pre.values()))
@@ -606,7 +610,8 @@ def check_preselect_validation(ctx):
         for pre in FORMS:
             check_preselect_form(ctx, x, pre)
             # every open path: all of them for a quarter of the forms, two random ones otherwise
-            paths = list(ext.PATHS) if rng.random() < 0.25 else rng.sample(ext.PATHS, 2)
+            two_known = len(pre) >= 2 and set(pre) <= {'dumps', 'channels'}
+            paths = list(ext.PATHS) if (rng.random() < 0.25 or two_known) else rng.sample(ext.PATHS, 2)
             ext.check_paths(ctx, x, rdb, pre, paths)
         ext.check_paths(ctx, x, rdb, None, ['direct', 'meta', 'open', 'list', 'given'])
         ext.check_other_format(ctx)
